@@ -14,6 +14,12 @@ def Out.isEv : Out α → Bool
   | .message _ _ => true
   | _ => false
 
+/-- the messages carried by one write -/
+def Out.items : Out α → List (Item α)
+  | .message _ it => [it]
+  | .json items => items
+  | _ => []
+
 def idCount : List (Out α) → Nat
   | [] => 0
   | o :: t => (if o.isEv then 1 else 0) + idCount t
